@@ -35,6 +35,10 @@ package server
 //@ func (*listener4).HandleMsg4
 //@   requires l != nil && l.PacketConn != nil && handlers4ok(l)
 //@   requires cap(buf) >= 65536
+// C16: the handler owns its receive buffer (taken from the pool for this datagram and handed over by
+// the go statement), until it puts it back
+//@   requires[C16:owns-its-receive-buffer] rxown[ref(buf)]
+//@   transfers rxown[ref(buf)]
 // environment: the receiving interface is known (bound listener, or the kernel's control message)
 //@   requires l.Interface.Index != 0 || (oob != nil && oob.IfIndex != 0)
 //@   preserves *l, elems(l.handlers), *oob
@@ -95,6 +99,8 @@ package server
 //@ func (*listener6).HandleMsg6
 //@   requires l != nil && l.PacketConn != nil && handlers6ok(l) && peer != nil
 //@   requires cap(buf) >= 65536
+//@   requires[C16:owns-its-receive-buffer] rxown[ref(buf)]
+//@   transfers rxown[ref(buf)]
 //@   requires l.Interface.Index != 0 || (oob != nil && oob.IfIndex != 0)
 //@   preserves *l, elems(l.handlers), *oob, *peer
 //@   modifies everything
